@@ -224,7 +224,7 @@ theorem RStack.length_eq {a : DObs} {ops : List UndoOp} {cs : List DObs} (h : RS
   | cons _ _ ih => simp [ih]
 
 theorem Ed.Inv.touch {floor : Nat} {a0 : DObs} {st0 : List UndoOp} {ed : Ed} (h : ed.Inv floor a0 st0) {f : Doc → Doc}
-    (hf : (f ed.doc).obs = ed.doc.obs) : (ed.mapDoc f).Inv floor a0 st0 := by
+    (hf : (f ed.doc).obs = ed.doc.obs) : ({ ed with doc := f ed.doc } : Ed).Inv floor a0 st0 := by
   obtain ⟨bs, cs, hwf, hbot⟩ := h.wf
   refine ⟨⟨bs, cs, ⟨?_, ?_⟩, ?_⟩, h.above, h.bottom, h.guards⟩
   · show UStack (f ed.doc).obs ed.undoStack bs
@@ -243,6 +243,11 @@ theorem Ed.Inv.beginAtomic {floor : Nat} {a0 : DObs} {st0 : List UndoOp} {ed : E
   rcases hg with rfl | hg
   · exact h.above
   · exact h.guards g hg
+
+theorem Ed.Inv.clearRedo {floor : Nat} {a0 : DObs} {st0 : List UndoOp} {ed : Ed} (h : ed.Inv floor a0 st0) :
+    ({ ed with redoStack := [] } : Ed).Inv floor a0 st0 := by
+  obtain ⟨bs, cs, hwf, hbot⟩ := h.wf
+  exact ⟨⟨bs, [], ⟨hwf.ustack, .nil _⟩, hbot⟩, h.above, h.bottom, h.guards⟩
 
 theorem Ed.Inv.undo {floor : Nat} {a0 : DObs} {st0 : List UndoOp} {ed : Ed} (h : ed.Inv floor a0 st0)
     (hlen : floor < ed.undoStack.length) : ∃ ed', ed.undo = .ok ed' ∧ ed'.Inv floor a0 st0 := by
@@ -359,6 +364,14 @@ theorem Ed.Inv.step {floor : Nat} {a0 : DObs} {st0 : List UndoOp} {ed : Ed} (h :
     simp [Ed.step] at he
     subst he
     exact h.touch (f := f) (hg ed.doc)
+  | clearRedo p =>
+    refine ⟨by simp [Ed.step], by simp [Ed.step], ?_⟩
+    intro ed' he
+    simp [Ed.step] at he
+    subst he
+    by_cases hp : p ed.doc = true
+    · simp only [hp, if_true]; exact h.clearRedo
+    · simp only [hp, if_false]; exact h
   | beginAtomic =>
     refine ⟨by simp [Ed.step], by simp [Ed.step], ?_⟩
     intro ed' he
